@@ -118,6 +118,22 @@ func writeEvidence(id, tier string, seed uint64, p *propInfo, a *aggregate, det 
 	if a.numSites > 0 {
 		cov["go_cose_statements_reached"] = map[string]any{"yield_sites_passed": len(a.sites), "yield_sites_total": a.numSites,
 			"measure": "distinct statements of package cose (yield sites of the instrumented copy) executed at least once by this check"}
+		if len(siteTable) == a.numSites+1 {
+			// per function: statements never executed / statements (functions reached completely are left out)
+			tot, miss := map[string]int{}, map[string]int{}
+			for i := 1; i < len(siteTable); i++ {
+				fn := strings.SplitN(siteTable[i], " ", 2)[0]
+				tot[fn]++
+				if !a.sites[i] {
+					miss[fn]++
+				}
+			}
+			un := map[string]string{}
+			for fn, m := range miss {
+				un[fn] = fmt.Sprintf("%d/%d", m, tot[fn])
+			}
+			cov["go_cose_statements_reached"].(map[string]any)["never_executed_by_function"] = un
+		}
 	}
 	if len(a.skips) > 0 {
 		cov["skipped_run_reasons"] = a.skips
